@@ -36,6 +36,9 @@ Definition cell_rel (c : cell) (r : rcell) : Prop :=
   match snd r with None => True | Some ra => fst (fst c) = attr_of_ref ra /\ RA_ok ra end.
 Definition grid_rel (t : list row) (g : list rrow) : Prop := Forall2 (Forall2 cell_rel) t g.
 
+(* the tab stops of a terminal on which no stop was set or cleared: every 8 columns *)
+Definition tabs0 (w : Z) : list Z := repeatz 1 (if 0 <? w mod 8 then w / 8 + 1 else w / 8).
+
 Definition modes0 : modes_t := mkModes false false false false false false true true false charset_default_gen.
 
 Record R0 (t : st) (v : vt) : Prop := mkR0 {
@@ -52,7 +55,8 @@ Record R0 (t : st) (v : vt) : Prop := mkR0 {
   r_raok : RA_ok (v_attr v);
   r_u8 : u8eat t = None;
   r_modes : modes t = modes0;
-  r_cset : cset t = charset_new }.
+  r_cset : cset t = charset_new;
+  r_tabs : tabstops t = tabs0 (v_w v) }.
 
 Definition R (s : st) (v : vt) : Prop := R0 s v /\ inesc s = false /\ pstate s = 0.
 
@@ -62,13 +66,13 @@ Proof. intros ([] & He & Hp). constructor; auto; rewrite r_modes0; reflexivity. 
 (* fields R0 reads, other than cur and rotten *)
 Definition same_gfx (t t' : st) : Prop :=
   width t' = width t /\ height t' = height t /\ term t' = term t /\ sr_start t' = sr_start t /\ sr_end t' = sr_end t /\
-  attrspec t' = attrspec t /\ u8eat t' = u8eat t /\ modes t' = modes t /\ cset t' = cset t.
+  attrspec t' = attrspec t /\ u8eat t' = u8eat t /\ modes t' = modes t /\ cset t' = cset t /\ tabstops t' = tabstops t.
 
 Lemma R0_moved t t' v x y p :
   R0 t v -> Inv t' -> same_gfx t t' -> cur t' = (x, y) -> rotten t' = p -> (p = true -> x = v_w v - 1) ->
   R0 t' (with_xy v x y p).
 Proof.
-  intros [] I' (E1 & E2 & E3 & E4 & E5 & E6 & E7 & E8 & E9) Hc Hr Hp.
+  intros [] I' (E1 & E2 & E3 & E4 & E5 & E6 & E7 & E8 & E9 & E10) Hc Hr Hp.
   constructor; cbn [with_xy v_w v_h v_g v_x v_y v_pend v_top v_bot v_attr]; try congruence; auto.
 Qed.
 
@@ -76,7 +80,7 @@ Lemma R0_parser t t' v :
   R0 t v -> same_gfx t t' -> cur t' = cur t -> rotten t' = rotten t -> cursor t' = cursor t -> sup t' = sup t ->
   tabstops t' = tabstops t -> saved_attrs t' = saved_attrs t -> events t' = events t -> sb t' = sb t -> R0 t' v.
 Proof.
-  intros [] (E1 & E2 & E3 & E4 & E5 & E6 & E7 & E8 & E9) Hc Hr H1 H2 H3 H4 H5 H6.
+  intros [] (E1 & E2 & E3 & E4 & E5 & E6 & E7 & E8 & E9 & E10) Hc Hr H1 H2 H3 H4 H5 H6.
   constructor; try congruence; auto.
   eapply Inv_ext; [| | | | | | | | | | | | |eassumption]; auto.
 Qed.
@@ -115,7 +119,7 @@ Proof.
   destruct (stc_frame (with_rotten t false) x y) as (F & C & Rt & _).
   eapply R0_moved; [exact H| | | | |discriminate].
   - eapply K_Inv. apply set_term_cursor_unrotten_K. assumption.
-  - destruct F as (E1 & E2 & E3 & E4 & E5 & E6 & E7 & E8 & E9). repeat split; assumption.
+  - destruct F as (E1 & E2 & E3 & E4 & E5 & E6 & E7 & E8 & E9 & E10). repeat split; assumption.
   - rewrite C. rewrite constrain_plain by (cbn; rewrite r_modes0; reflexivity). cbn [width height with_rotten].
     rewrite r_w0, r_h0. reflexivity.
   - rewrite Rt. reflexivity.
@@ -253,7 +257,7 @@ Qed.
 Lemma R0_same t t' v :
   R0 t v -> Inv t' -> same_gfx t t' -> cur t' = cur t -> rotten t' = rotten t -> R0 t' v.
 Proof.
-  intros [] I' (E1 & E2 & E3 & E4 & E5 & E6 & E7 & E8 & E9) Hc Hr. constructor; try congruence; auto.
+  intros [] I' (E1 & E2 & E3 & E4 & E5 & E6 & E7 & E8 & E9 & E10) Hc Hr. constructor; try congruence; auto.
 Qed.
 
 (* ---------- single bytes ---------- *)
@@ -330,7 +334,7 @@ Proof.
   { pose proof (csi_set_scroll_K X (Z.max t 0) (Z.max b 0) r_inv0) as Kc. unfold csi_set_scroll in Kc. cbv zeta in Kc.
     rewrite r_h0, E1, E2 in Kc. fold b' in Kc. rewrite C in Kc. apply K_Inv in Kc. exact Kc. }
   clearbody b' ot.
-  destruct (stc_frame (with_rotten s2 false) 0 0) as ((F1 & F2 & F3 & F4 & F5 & F6 & F7 & F8 & F9) & Fc & Fr & _).
+  destruct (stc_frame (with_rotten s2 false) 0 0) as ((F1 & F2 & F3 & F4 & F5 & F6 & F7 & F8 & F9 & F10) & Fc & Fr & _).
   assert (sr_start s2 = ot - 1) as S1.
   { subst s2. cbn [sr_start with_sr_end with_sr_start]. rewrite constrain_ign. rewrite r_h0. split_ifs; lia. }
   assert (sr_end s2 = b' - 1) as S2.
@@ -348,6 +352,7 @@ Proof.
   - rewrite F7. exact r_u9.
   - rewrite F8. exact r_modes0.
   - rewrite F9. exact r_cset0.
+  - rewrite F10. exact r_tabs0.
 Qed.
 
 Lemma sim_dsr s v n : R s v -> small n ->
@@ -368,12 +373,12 @@ Lemma clear_fields s :
   term s' = repeatz (empty_line s [32]) (height s) /\ cur s' = (clamp 0 (width s), clamp 0 (height s)) /\
   width s' = width s /\ height s' = height s /\ sr_start s' = sr_start s /\ sr_end s' = sr_end s /\
   rotten s' = rotten s /\ attrspec s' = attrspec s /\ u8eat s' = u8eat s /\ modes s' = modes s /\ cset s' = cset s /\
-  inesc s' = inesc s /\ pstate s' = pstate s.
+  inesc s' = inesc s /\ pstate s' = pstate s /\ tabstops s' = tabstops s.
 Proof.
   intros Hm. unfold clear. cbv zeta.
   match goal with |- context [set_term_cursor ?S 0 0] => set (S0 := S) end.
-  destruct (stc_frame S0 0 0) as ((F1 & F2 & F3 & F4 & F5 & F6 & F7 & F8 & F9) & Fc & Fr & Fi & Fp & _).
-  rewrite F1, F2, F3, F4, F5, F6, F7, F8, F9, Fc, Fr, Fi, Fp.
+  destruct (stc_frame S0 0 0) as ((F1 & F2 & F3 & F4 & F5 & F6 & F7 & F8 & F9 & F10) & Fc & Fr & Fi & Fp & _).
+  rewrite F1, F2, F3, F4, F5, F6, F7, F8, F9, F10, Fc, Fr, Fi, Fp.
   rewrite constrain_plain by exact Hm. repeat split; reflexivity.
 Qed.
 
@@ -383,12 +388,12 @@ Lemma reset_fields s :
   cur s' = (clamp 0 (width s), clamp 0 (height s)) /\
   width s' = width s /\ height s' = height s /\ sr_start s' = 0 /\ sr_end s' = height s - 1 /\
   rotten s' = false /\ attrspec s' = None /\ u8eat s' = u8eat s /\ modes s' = modes_reset (modes s) /\
-  cset s' = charset_new /\ inesc s' = false /\ pstate s' = 0.
+  cset s' = charset_new /\ inesc s' = false /\ pstate s' = 0 /\ tabstops s' = tabs0 (width s).
 Proof.
   unfold reset. cbv zeta.
   match goal with |- context [clear ?S None] => set (S0 := S) end.
-  destruct (clear_fields S0 eq_refl) as (F1 & F2 & F3 & F4 & F5 & F6 & F7 & F8 & F9 & F10 & F11 & F12 & F13).
-  cbv zeta in *. rewrite F1, F2, F3, F4, F5, F6, F7, F8, F9, F10, F11, F12, F13.
+  destruct (clear_fields S0 eq_refl) as (F1 & F2 & F3 & F4 & F5 & F6 & F7 & F8 & F9 & F10 & F11 & F12 & F13 & F14).
+  cbv zeta in *. rewrite F1, F2, F3, F4, F5, F6, F7, F8, F9, F10, F11, F12, F13, F14.
   repeat split; reflexivity.
 Qed.
 
@@ -400,10 +405,10 @@ Lemma R_reset S :
   R (reset S) (vt_init (width S) (height S)).
 Proof.
   intros I Hw Hh Hu Hb.
-  destruct (reset_fields S) as (F1 & F2 & F3 & F4 & F5 & F6 & F7 & F8 & F9 & F10 & F11 & F12 & F13). cbv zeta in *.
+  destruct (reset_fields S) as (F1 & F2 & F3 & F4 & F5 & F6 & F7 & F8 & F9 & F10 & F11 & F12 & F13 & F14). cbv zeta in *.
   split; [|split; assumption].
   constructor; cbn [vt_init v_w v_h v_g v_x v_y v_pend v_top v_bot v_attr];
-    rewrite ?F1, ?F2, ?F3, ?F4, ?F5, ?F6, ?F7, ?F8, ?F9, ?F10, ?F11; auto; try reflexivity; try discriminate.
+    rewrite ?F1, ?F2, ?F3, ?F4, ?F5, ?F6, ?F7, ?F8, ?F9, ?F10, ?F11, ?F14; auto; try reflexivity; try discriminate.
   - unfold repeatz. apply Forall2_repeat. apply Forall2_repeat. split; [reflexivity|]. split; [reflexivity|]. split; exact Logic.I.
   - unfold clamp. split_ifs; try lia. reflexivity.
   - split; exact Logic.I.
@@ -460,7 +465,8 @@ Record Rg (t : st) (v : vt) : Prop := mkRg {
   g_raok : RA_ok (v_attr v);
   g_u8 : u8eat t = None;
   g_modes : modes t = modes0;
-  g_cset : cset t = charset_new }.
+  g_cset : cset t = charset_new;
+  g_tabs : tabstops t = tabs0 (v_w v) }.
 
 Lemma R0_Rg t v : R0 t v -> Rg t v.
 Proof. intros []. constructor; assumption. Qed.
@@ -483,7 +489,7 @@ Proof. intros []. constructor; assumption. Qed.
 Lemma Rg_same t t' v :
   Rg t v -> Inv t' -> same_gfx t t' -> cur t' = cur t -> Rg t' v.
 Proof.
-  intros [] I' (E1 & E2 & E3 & E4 & E5 & E6 & E7 & E8 & E9) Hc. constructor; try congruence; auto.
+  intros [] I' (E1 & E2 & E3 & E4 & E5 & E6 & E7 & E8 & E9 & E10) Hc. constructor; try congruence; auto.
 Qed.
 
 Lemma Rg_rotten t v b : Rg t v -> Rg (with_rotten t b) v.
@@ -496,7 +502,7 @@ Lemma Rg_move t v x y p :
   Rg t v -> Rg (set_term_cursor t x y) (with_xy v (clamp x (v_w v)) (clamp y (v_h v)) p).
 Proof.
   intros H. pose proof H as [].
-  destruct (stc_frame t x y) as ((E1 & E2 & E3 & E4 & E5 & E6 & E7 & E8 & E9) & C & _).
+  destruct (stc_frame t x y) as ((E1 & E2 & E3 & E4 & E5 & E6 & E7 & E8 & E9 & E10) & C & _).
   constructor; cbn [with_xy v_w v_h v_g v_x v_y v_pend v_top v_bot v_attr]; try congruence; auto.
   - eapply K_Inv. apply set_term_cursor_K. assumption.
   - rewrite C. rewrite constrain_plain by (rewrite g_modes0; reflexivity). rewrite g_w0, g_h0. reflexivity.
@@ -548,9 +554,9 @@ Qed.
 Lemma Rg_upd t t' v g1 :
   Rg t v -> Inv t' -> width t' = width t -> height t' = height t -> cur t' = cur t -> sr_start t' = sr_start t ->
   sr_end t' = sr_end t -> attrspec t' = attrspec t -> u8eat t' = u8eat t -> modes t' = modes t -> cset t' = cset t ->
-  grid_rel (term t') g1 -> Rg t' (with_g v g1).
+  tabstops t' = tabstops t -> grid_rel (term t') g1 -> Rg t' (with_g v g1).
 Proof.
-  intros [] I' E1 E2 E3 E4 E5 E6 E7 E8 E9 G.
+  intros [] I' E1 E2 E3 E4 E5 E6 E7 E8 E9 E10 G.
   constructor; cbn [with_g v_w v_h v_g v_x v_y v_pend v_top v_bot v_attr]; try congruence; auto.
 Qed.
 
@@ -1496,6 +1502,246 @@ Proof.
   apply remove_lines_R0. assumption.
 Qed.
 
+(* ---------- SGR (the classic parameters: no 38 / 48 colour sequences) ---------- *)
+Lemma sgr_cons n r a : (n =? 38) || (n =? 48) = false -> sgr (n :: r) a = sgr r (sgr1 n a).
+Proof. intros H. cbn [sgr]. rewrite H. reflexivity. Qed.
+
+Definition sgr_values : list Z :=
+  [0; 1; 4; 5; 7; 24; 25; 27; 30; 31; 32; 33; 34; 35; 36; 37; 39; 40; 41; 42; 43; 44; 45; 46; 47; 49].
+
+Lemma sgr_value_plain a : In a sgr_values -> (a =? 38) || (a =? 48) = false.
+Proof. unfold sgr_values. cbn [In]. intros H. repeat (destruct H as [H|H]; [subst a; reflexivity|]). contradiction. Qed.
+
+Lemma sgr_norm l : Forall (fun n => In (Z.max n 0) sgr_values) l -> forall a, sgr l a = sgr (map (fun n => Z.max n 0) l) a.
+Proof.
+  induction l as [|n r IH]; intros Hl a; [reflexivity|]. inversion Hl as [|? ? Hn Hr]; subst. cbn [map].
+  pose proof (sgr_value_plain _ Hn) as P.
+  assert ((n =? 38) || (n =? 48) = false) as P' by lia.
+  rewrite (sgr_cons n r a P'). rewrite (sgr_cons _ _ a P). rewrite IH by assumption. f_equal.
+  destruct a. unfold sgr1. destruct (n <=? 0) eqn:C.
+  - replace (Z.max n 0 <=? 0) with true by lia. reflexivity.
+  - replace (Z.max n 0) with n by lia. rewrite C. reflexivity.
+Qed.
+
+(* the running values of sgi_to_attrspec's loop against the reference rendition *)
+Definition G_rel (g : sgi_t) (a : rattr) (cs : charset_t) (dc : bool) : Prop :=
+  g_fg g = r_fg a /\ g_bg g = r_bg a /\ g_bold g = r_bold a /\ g_ul g = r_ul a /\ g_blink g = r_blink a /\
+  g_so g = r_rev a /\ RA_ok a /\ (g_colors g = 1 \/ g_colors g = 16) /\
+  ((g_fg g <> None \/ g_bg g <> None) -> g_colors g = 16) /\ g_cs g = cs /\ g_dc g = dc.
+
+Lemma memz_in b l : memz b l = true -> In b l.
+Proof.
+  induction l; cbn [memz]; [discriminate|]. intros H. apply orb_prop in H. destruct H as [H|H].
+  - left. lia.
+  - right. auto.
+Qed.
+
+Ltac eval_cmp :=
+  repeat match goal with
+         | |- context [?a <=? ?b] =>
+             let r := eval vm_compute in (a <=? b) in
+             match r with true => idtac | false => idtac end; change (a <=? b) with r
+         | |- context [?a =? ?b] =>
+             let r := eval vm_compute in (a =? b) in
+             match r with true => idtac | false => idtac end; change (a =? b) with r
+         end.
+
+Lemma sgi_step_rel a g ra cs dc : In a sgr_values -> G_rel g ra cs dc -> G_rel (sgi_step1 a g) (sgr1 a ra) cs dc.
+Proof.
+  intros Ha (E1 & E2 & E3 & E4 & E5 & E6 & (O1 & O2) & Ec & Ei & Ecs & Edc).
+  destruct g as [fg bg colors bold ul blink so gcs gdc gfi gbi]. destruct ra as [rf rb rbo rul rbl rrv].
+  cbn [g_fg g_bg g_colors g_bold g_ul g_blink g_so g_cs g_dc r_fg r_bg r_bold r_ul r_blink r_rev] in *. subst.
+  unfold sgr_values in Ha. cbn [In] in Ha.
+  repeat (destruct Ha as [Ha|Ha]; [subst a; unfold G_rel, RA_ok, sgi_step1, sgr1, ra0; eval_cmp; cbn; repeat split; auto; try lia; try (intros [?|?]; try congruence; apply Ei; auto); try (destruct Ec; lia)|]).
+  contradiction.
+Qed.
+
+Lemma sgi_loop_rel l : forall g ra cs dc, Forall (fun a => In a sgr_values) l -> G_rel g ra cs dc ->
+  G_rel (sgi_loop l g) (sgr l ra) cs dc.
+Proof.
+  induction l as [|a r IH]; intros g ra cs dc Hl HG; [exact HG|].
+  inversion Hl as [|? ? Ha Hr]; subst. cbn [sgi_loop]. pose proof (sgr_value_plain a Ha) as E.
+  rewrite (sgr_cons a r ra E). rewrite E. apply IH; [assumption|]. apply sgi_step_rel; assumption.
+Qed.
+
+Ltac lia_cmp :=
+  repeat match goal with
+         | |- context [?a <=? ?b] => first [replace (a <=? b) with true by lia | replace (a <=? b) with false by lia]
+         | |- context [?a <? ?b] => first [replace (a <? b) with true by lia | replace (a <? b) with false by lia]
+         | |- context [?a =? ?b] => first [replace (a =? b) with true by lia | replace (a =? b) with false by lia]
+         end.
+
+Lemma mk_attrspec_rel g ra cs dc :
+  G_rel g ra cs dc ->
+  mk_attrspec (match g_fg g with
+               | Some f => if g_bold g && (g_colors g =? 16) && (f <? 8) then Some (f + 8) else Some f
+               | None => None
+               end) (g_bg g) (g_colors g) (g_bold g) (g_ul g) (g_blink g) (g_so g) = Ok (attr_of_ref ra).
+Proof.
+  intros (E1 & E2 & E3 & E4 & E5 & E6 & (O1 & O2) & Ec & Ei & _ & _).
+  destruct g as [fg bg colors bold ul blink so gcs gdc gfi gbi]. destruct ra as [rf rb rbo rul rbl rrv].
+  cbn [g_fg g_bg g_colors g_bold g_ul g_blink g_so g_cs g_dc r_fg r_bg r_bold r_ul r_blink r_rev] in *. subst.
+  unfold mk_attrspec, attr_of_ref, colors_ok, color_ok. cbn [r_fg r_bg r_bold r_ul r_blink r_rev].
+  destruct rf as [f|], rb as [b|];
+    try (assert (colors = 16) as -> by (apply Ei; (left; discriminate) || (right; discriminate)));
+    try (destruct Ec as [-> | ->]);
+    destruct rbo, rul, rbl, rrv; cbv beta iota in O1, O2;
+    do 4 (lia_cmp; cbn [andb orb negb is_none]; cbv beta iota); reflexivity.
+Qed.
+
+(* the values with which sgi_to_attrspec starts when the current AttrSpec is that of a reference rendition *)
+Lemma G_rel_start ra cs dc fi bi : RA_ok ra ->
+  match attr_of_ref ra with
+  | None => G_rel (mkSgi None None 1 false false false false cs dc fi bi) ra cs dc
+  | Some a => G_rel (mkSgi (unbright a (a_fg a)) (unbright a (a_bg a)) (a_colors a) (a_bold a) (a_ul a) (a_blink a) (a_so a) cs dc fi bi) ra cs dc
+  end.
+Proof.
+  destruct ra as [rf rb rbo rul rbl rrv]. unfold RA_ok, attr_of_ref. cbn [r_fg r_bg r_bold r_ul r_blink r_rev]. intros [O1 O2].
+  destruct rf as [f|], rb as [b|], rbo, rul, rbl, rrv; cbn [andb orb negb is_none];
+    unfold G_rel, RA_ok, unbright; cbn [g_fg g_bg g_colors g_bold g_ul g_blink g_so g_cs g_dc r_fg r_bg r_bold r_ul r_blink r_rev
+                                    a_fg a_bg a_colors a_bold a_ul a_blink a_so andb];
+    lia_cmp; cbn [andb]; repeat split; auto; try lia; try (f_equal; lia); try (intros [?|?]; congruence).
+Qed.
+
+Lemma cd_sgr X args q : csi_dispatch X 109 args q = csi_set_attr X args.
+Proof. unfold csi_dispatch. destruct (cur X). reflexivity. Qed.
+
+Lemma repeatz_nonpos {A} (x : A) n : n <= 0 -> repeatz x n = [].
+Proof. intros. unfold repeatz. replace (Z.to_nat n) with 0%nat by lia. reflexivity. Qed.
+
+Lemma csi_args_sgr l :
+  csi_args l 1 0 = map (fun n => Z.max n 0) (match l with [] => [0] | _ => l end).
+Proof.
+  unfold csi_args. cbv zeta. destruct l as [|a r]; [reflexivity|].
+  set (l := a :: r).
+  rewrite repeatz_nonpos by (rewrite zlen_map; subst l; rewrite zlen_cons; pose proof (zlen_nonneg r); lia).
+  rewrite app_nil_r. rewrite map_map. apply map_ext. intros n. apply dflt_zero.
+Qed.
+
+Lemma sim_sgr s v l : R s v -> cmd_ok (CSgr l) = true -> Forall small l ->
+  exists s', addbytes s (enc_cmd (CSgr l)) = Ok s' /\ R s' (exec v (CSgr l)).
+Proof.
+  intros HR Hok Hs. cbn [enc_cmd exec].
+  eapply (sim_csi s v l 109 1 0 109); [assumption|assumption|reflexivity|unfold plain_byte; lia|].
+  intros X HX. rewrite cd_sgr. rewrite csi_args_sgr.
+  set (l' := match l with [] => [0] | _ => l end).
+  assert (Forall (fun n => In (Z.max n 0) sgr_values) l') as Hv0.
+  { apply Forall_forall. intros n Hn.
+    assert (memz n [-1; 0; 1; 4; 5; 7; 24; 25; 27; 30; 31; 32; 33; 34; 35; 36; 37; 39; 40; 41; 42; 43; 44; 45; 46; 47; 49] = true) as Hm.
+    { subst l'. cbn [cmd_ok] in Hok. destruct l as [|a0 r0]; [destruct Hn as [<-|[]]; reflexivity|].
+      rewrite forallb_forall in Hok. apply Hok. exact Hn. }
+    apply memz_in in Hm. cbn [In] in Hm. unfold sgr_values. cbn [In].
+    repeat (destruct Hm as [Hm|Hm]; [subst n; cbv; tauto|]). contradiction. }
+  rewrite (sgr_norm l' Hv0). set (args := map (fun n => Z.max n 0) l').
+  assert (Forall (fun a => In a sgr_values) args) as Hv.
+  { subst args. apply Forall_forall. intros a Ha. apply in_map_iff in Ha. destruct Ha as (n & <- & Hn).
+    rewrite Forall_forall in Hv0. apply Hv0. exact Hn. }
+  pose proof HX as [I1 _ _ _ _ _ _ _ _ A1 O1 _ M1 C1].
+  unfold csi_set_attr. set (ra := v_attr v) in *.
+  assert (exists g, G_rel g (sgr args ra) (cset X) (m_display_ctrl (modes X)) /\
+            match attrspec X with
+            | Some a => sgi_to_attrspec X args (unbright a (a_fg a)) (unbright a (a_bg a)) (a_bold a) (a_ul a) (a_blink a) (a_so a) (a_colors a)
+            | None => sgi_to_attrspec X args None None false false false false 1
+            end = Ok (with_modes (with_cset X (g_cs g)) (set_m_display_ctrl (modes X) (g_dc g)), attr_of_ref (sgr args ra)))
+    as (g & Gg & E2).
+  { rewrite A1.
+    assert (forall g0, G_rel g0 ra (cset X) (m_display_ctrl (modes X)) ->
+              exists g, G_rel g (sgr args ra) (cset X) (m_display_ctrl (modes X)) /\ g = sgi_loop args g0) as Hloop.
+    { intros g0 G0. eexists. split; [|reflexivity]. apply sgi_loop_rel; assumption. }
+    destruct (attr_of_ref ra) as [a|] eqn:Ea.
+    - pose proof (G_rel_start ra (cset X) (m_display_ctrl (modes X)) (negb (a_colors a =? 16777216)) (negb (a_colors a =? 16777216)) O1) as G0.
+      rewrite Ea in G0. destruct (Hloop _ G0) as (g & Gl & Eg).
+      exists g. split; [exact Gl|]. unfold sgi_to_attrspec. cbv zeta. rewrite <- Eg.
+      pose proof Gl as (_ & _ & _ & _ & _ & _ & _ & Ec & _).
+      replace (g_colors g =? 16777216) with false by (destruct Ec as [-> | ->]; reflexivity). cbn [bind fst snd].
+      match goal with |- bind ?M _ = _ => replace M with (@Ok (option attr) (attr_of_ref (sgr args ra))) by (symmetry; apply (mk_attrspec_rel _ _ _ _ Gl)) end. reflexivity.
+    - pose proof (G_rel_start ra (cset X) (m_display_ctrl (modes X)) (negb (1 =? 16777216)) (negb (1 =? 16777216)) O1) as G0.
+      rewrite Ea in G0. destruct (Hloop _ G0) as (g & Gl & Eg).
+      exists g. split; [exact Gl|]. unfold sgi_to_attrspec. cbv zeta. rewrite <- Eg.
+      pose proof Gl as (_ & _ & _ & _ & _ & _ & _ & Ec & _).
+      replace (g_colors g =? 16777216) with false by (destruct Ec as [-> | ->]; reflexivity). cbn [bind fst snd].
+      match goal with |- bind ?M _ = _ => replace M with (@Ok (option attr) (attr_of_ref (sgr args ra))) by (symmetry; apply (mk_attrspec_rel _ _ _ _ Gl)) end. reflexivity. }
+  rewrite E2. cbn [bind].
+  destruct Gg as (_ & _ & _ & _ & _ & _ & Ok' & _ & _ & Ecs & Edc). rewrite Ecs, Edc.
+  rewrite M1. cbn [m_reverse_video set_m_display_ctrl modes0 m_display_ctrl modes with_modes with_cset].
+  eexists. split; [reflexivity|]. pose proof HX as [].
+  constructor; cbn [v_w v_h v_g v_x v_y v_pend v_top v_bot v_attr width height term cur sr_start sr_end rotten attrspec u8eat
+                    modes cset with_attrspec with_modes with_cset]; auto.
+  eapply K_Inv. eapply K_trans; [apply with_cset_K; exact I1|].
+  eapply K_trans; [apply with_modes_K; apply with_cset_K; exact I1|].
+  apply with_attrspec_K; [apply with_modes_K; apply with_cset_K; exact I1|].
+  destruct (attr_of_ref (sgr args ra)) eqn:Ea; [|exact Logic.I].
+  (* the built AttrSpec is in the domain *)
+  unfold attr_of_ref in Ea. destruct Ok' as [P1 P2].
+  destruct (sgr args ra) as [rf rb rbo rul rbl rrv]. cbn [r_fg r_bg r_bold r_ul r_blink r_rev] in *.
+  destruct (is_none rf && is_none rb && negb (rbo || rul || rbl || rrv)); [discriminate|]. inversion Ea; subst.
+  unfold oattr_ok, attr_ok, colors_ok, color_ok. cbn [a_colors a_fg a_bg].
+  destruct rf as [f|], rb as [b|], rbo; cbn [is_none andb]; lia_cmp; cbn [andb]; repeat split; reflexivity.
+Qed.
+
+(* ---------- HT ---------- *)
+Lemma nthz_repeat {A} (x : A) n i : 0 <= i < Z.of_nat n -> nthz (repeat x n) i = Some x.
+Proof.
+  intros H. unfold nthz. replace (i <? 0) with false by lia.
+  assert (Z.to_nat i < n)%nat as Hn by lia. revert Hn. generalize (Z.to_nat i) as k. clear. intros k. revert k.
+  induction n; intros k Hk; [lia|]. destruct k; [reflexivity|]. cbn [repeat nth_error]. apply IHn. lia.
+Qed.
+
+Lemma is_tabstop_default t v x : Rg t v -> 0 <= x < v_w v -> is_tabstop t x = Ok (x mod 8 =? 0).
+Proof.
+  intros H Hx. pose proof H as []. unfold is_tabstop. rewrite g_tabs0. unfold tabs0, repeatz.
+  pose proof (tablen_bound (v_w v) ltac:(lia)) as B.
+  set (tl := if 0 <? v_w v mod 8 then v_w v / 8 + 1 else v_w v / 8) in *.
+  assert (0 <= x / 8 < tl) as Hi.
+  { split; [apply Z.div_pos; lia|apply Z.div_lt_upper_bound; lia]. }
+  rewrite (get_index_nthz _ (x / 8) 1); [|lia|apply nthz_repeat; lia]. cbn [bind].
+  pose proof (Z.mod_pos_bound x 8 ltac:(lia)) as Hm. set (m := x mod 8) in *.
+  assert (m = 0 \/ m = 1 \/ m = 2 \/ m = 3 \/ m = 4 \/ m = 5 \/ m = 6 \/ m = 7) as E by lia.
+  clearbody m. repeat (destruct E as [E|E]; [subst m; reflexivity|]). subst m. reflexivity.
+Qed.
+
+Lemma tab_loop_default fuel : forall t v x, Rg t v -> 0 <= x <= v_w v - 1 -> v_w v - 1 - x < Z.of_nat fuel ->
+  tab_loop fuel t x = Ok (t, Z.min (v_w v - 1) ((x / 8 + 1) * 8)).
+Proof.
+  induction fuel; intros t v x H Hx Hf; [lia|]. pose proof H as [].
+  cbn [tab_loop]. rewrite g_w0.
+  pose proof (Z.div_mod x 8 ltac:(lia)) as Dx. pose proof (Z.mod_pos_bound x 8 ltac:(lia)) as Mx.
+  destruct (x <? v_w v - 1) eqn:C.
+  - rewrite (is_tabstop_default t v (x + 1) H) by lia. cbn [bind].
+    destruct ((x + 1) mod 8 =? 0) eqn:C2.
+    + f_equal. f_equal.
+      assert ((x + 1) mod 8 = 0) as M1 by lia. pose proof (Z.div_mod (x + 1) 8 ltac:(lia)) as D1. rewrite M1 in D1.
+      assert (x mod 8 = 7) as M7.
+      { assert ((x + 1) mod 8 = (x mod 8 + 1) mod 8) as E by (rewrite Z.add_mod_idemp_l by lia; reflexivity).
+        rewrite M1 in E. destruct (Z.eq_dec (x mod 8) 7); [assumption|]. rewrite Z.mod_small in E by lia. lia. }
+      lia.
+    + rewrite (IHfuel t v (x + 1) H) by lia. f_equal. f_equal. f_equal.
+      assert ((x + 1) / 8 = x / 8) as E.
+      { symmetry. apply (Z.div_unique (x + 1) 8 (x / 8) (x mod 8 + 1)); [|lia].
+        assert ((x + 1) mod 8 = (x mod 8 + 1) mod 8) as E by (rewrite Z.add_mod_idemp_l by lia; reflexivity).
+        destruct (Z.eq_dec (x mod 8) 7) as [E7|E7]; [rewrite E7 in E; change ((7 + 1) mod 8) with 0 in E; lia|lia]. }
+      rewrite E. reflexivity.
+  - f_equal. f_equal. lia.
+Qed.
+
+Lemma pc_ht s : m_display_ctrl (modes s) = false -> process_char s [9] = tab s.
+Proof. intros Hd. unfold process_char. destruct (cur s). cbv zeta. rewrite Hd. reflexivity. Qed.
+
+Lemma sim_ht s v : R s v -> ambiguous v CHt = false ->
+  exists s', addbytes s (enc_cmd CHt) = Ok s' /\ R s' (exec v CHt).
+Proof.
+  intros HR Ha. pose proof (R_idle s v HR) as [He Hp Hu Hd Hm]. destruct HR as (H0 & _).
+  pose proof (R0_bounds s v H0) as B. pose proof H0 as [].
+  cbn [enc_cmd exec ambiguous] in *. rewrite addbytes_1. rewrite addbyte_ascii by (auto; lia). rewrite pc_ht by assumption.
+  unfold tab. rewrite r_cur0.
+  rewrite (tab_loop_default _ s v (v_x v) (R0_Rg s v H0)) by lia. cbn [bind fst snd].
+  eexists. split; [reflexivity|].
+  destruct (stc_frame (with_rotten s false) (Z.min (v_w v - 1) ((v_x v / 8 + 1) * 8)) (v_y v)) as (_ & _ & _ & Ei & Ep & _).
+  split; [|split; [rewrite Ei; exact He|rewrite Ep; exact Hp]].
+  pose proof (Z.div_pos (v_x v) 8 ltac:(lia) ltac:(lia)).
+  erewrite with_xy_eq; [apply R0_move; assumption| |]; unfold clamp; split_ifs; lia.
+Qed.
+
 (* ---------- composition ---------- *)
 Definition cmd_small (c : cmd) : Prop :=
   match c with
@@ -1508,20 +1754,12 @@ Definition cmd_small (c : cmd) : Prop :=
 Fixpoint unambiguous (v : vt) (cs : list cmd) : bool :=
   match cs with [] => true | c :: r => negb (ambiguous v c) && unambiguous (exec v c) r end.
 
-(* the commands whose simulation lemma is proved *)
-Definition cmd_proved (c : cmd) : bool :=
-  match c with
-  | CCh _ | CCr | CLf | CBs | CRi | CCup _ _ | CCuu _ | CCud _ | CCuf _ | CCub _ | CEl _ | CEd _ | CIch _ | CDch _
-  | CIl _ | CDl _ | CStbm _ _ | CDsr _ => true
-  | _ => false
-  end.
-
 Lemma sim_cmd c s v :
-  R s v -> cmd_proved c = true -> cmd_ok c = true -> cmd_small c -> ambiguous v c = false ->
+  R s v -> cmd_ok c = true -> cmd_small c -> ambiguous v c = false ->
   exists s', addbytes s (enc_cmd c) = Ok s' /\ R s' (exec v c).
 Proof.
-  intros HR Hp Hok Hs Ha. destruct c; try discriminate Hp; cbn [cmd_small cmd_ok] in Hs, Hok.
-  - apply sim_ch; [assumption|lia].
+  intros HR Hok Hs Ha. destruct c; cbn [cmd_small] in Hs.
+  - cbn [cmd_ok] in Hok. apply sim_ch; [assumption|lia].
   - apply sim_cr; assumption.
   - apply sim_lf; assumption.
   - apply sim_bs; assumption.
@@ -1531,38 +1769,38 @@ Proof.
   - apply sim_cud; assumption.
   - apply sim_cuf; assumption.
   - apply sim_cub; assumption.
-  - apply sim_el; [assumption|lia|assumption].
-  - apply sim_ed; [assumption|lia|assumption].
+  - cbn [cmd_ok] in Hok. apply sim_el; [assumption|lia|assumption].
+  - cbn [cmd_ok] in Hok. apply sim_ed; [assumption|lia|assumption].
   - apply sim_ich; assumption.
   - apply sim_dch; assumption.
   - apply sim_il; assumption.
   - apply sim_dl; assumption.
   - destruct Hs. apply sim_stbm; assumption.
+  - apply sim_sgr; assumption.
   - apply sim_dsr; assumption.
+  - apply sim_ht; assumption.
 Qed.
 
 Lemma sim_cmds cs : forall s v,
-  R s v -> forallb cmd_proved cs = true -> forallb cmd_ok cs = true -> Forall cmd_small cs ->
-  unambiguous v cs = true ->
+  R s v -> forallb cmd_ok cs = true -> Forall cmd_small cs -> unambiguous v cs = true ->
   exists s', addbytes s (enc_cmds cs) = Ok s' /\ R s' (run_ref v cs).
 Proof.
-  induction cs as [|c r IH]; intros s v HR Hp Hok Hs Hu.
+  induction cs as [|c r IH]; intros s v HR Hok Hs Hu.
   - exists s. split; [reflexivity|exact HR].
-  - cbn [forallb] in Hp, Hok. apply andb_prop in Hp. apply andb_prop in Hok. destruct Hp as [Hp1 Hp2]. destruct Hok as [Hk1 Hk2].
+  - cbn [forallb] in Hok. apply andb_prop in Hok. destruct Hok as [Hk1 Hk2].
     inversion Hs; subst. cbn [unambiguous] in Hu. apply andb_prop in Hu. destruct Hu as [Hu1 Hu2].
-    destruct (sim_cmd c s v HR Hp1 Hk1 H1) as (s1 & E1 & R1); [destruct (ambiguous v c); [discriminate|reflexivity]|].
-    destruct (IH s1 (exec v c) R1 Hp2 Hk2 H2 Hu2) as (s2 & E2 & R2).
+    destruct (sim_cmd c s v HR Hk1 H1) as (s1 & E1 & R1); [destruct (ambiguous v c); [discriminate|reflexivity]|].
+    destruct (IH s1 (exec v c) R1 Hk2 H2 Hu2) as (s2 & E2 & R2).
     exists s2. unfold enc_cmds. cbn [flat_map]. rewrite addbytes_app. rewrite E1. cbn [bind].
     split; [exact E2|]. unfold run_ref. cbn [fold_left]. exact R2.
 Qed.
 
-Lemma refines_partial w h e cs :
-  1 <= w -> 1 <= h -> forallb cmd_proved cs = true -> forallb cmd_ok cs = true -> Forall cmd_small cs ->
-  unambiguous (vt_init w h) cs = true ->
+Lemma refines_vt100 w h e cs :
+  1 <= w -> 1 <= h -> forallb cmd_ok cs = true -> Forall cmd_small cs -> unambiguous (vt_init w h) cs = true ->
   exists s, run (init w h e) [Feed (enc_cmds cs)] = Ok s /\ agrees s (run_ref (vt_init w h) cs) = true.
 Proof.
-  intros Hw Hh Hp Hok Hs Hu.
-  destruct (sim_cmds cs (init w h e) (vt_init w h) (R_init w h e Hw Hh) Hp Hok Hs Hu) as (s' & E & (HR & _)).
+  intros Hw Hh Hok Hs Hu.
+  destruct (sim_cmds cs (init w h e) (vt_init w h) (R_init w h e Hw Hh) Hok Hs Hu) as (s' & E & (HR & _)).
   exists s'. cbn [run step]. rewrite addstr_addbytes by (apply init_Inv; assumption). rewrite E. cbn [bind].
   split; [reflexivity|]. apply R0_agrees. assumption.
 Qed.
